@@ -198,7 +198,7 @@ impl Env {
             log.push_str(&format!(
                 "|{}:{}:{}:{}:{}:{}",
                 e.op.name(),
-                e.path.strip_prefix(&root).unwrap_or(&e.path),
+                e.path.replace(&root, "<W>"),
                 e.len,
                 e.ret,
                 e.errno,
@@ -206,7 +206,7 @@ impl Env {
             ));
         }
         self.note(log.as_bytes());
-        self.note(&crate::world::snap_digest(&after).to_le_bytes());
+        self.note(&crate::world::snap_digest(&after, &root).to_le_bytes());
         self.note(res.stdout.replace(&root, "<W>").as_bytes());
         // leak detector
         self.leak_checks += 1;
